@@ -149,21 +149,23 @@ FTok(lazy) == { <<Rule(<<Dl(".", FALSE), I("a", FALSE)>>, <<Decl(p[1], p[2])>>)>
 
 -----------------------------------------------------------------------------
 (* :host partition (C17) *)
+(* block at-rules that hold no rules (declarations, keyframes), standing before the :host rule in the same chain *)
+NoRules == { At("font-face", <<>>, "decls", <<Decl("font-family", <<Str("F", FALSE)>>)>>),
+             At("keyframes", <<I("k", TRUE)>>, "keyframes", <<Frame(<<I("from", FALSE)>>, <<Decl("left", <<Dim(3, "rpx", FALSE)>>)>>)>>),
+             At("page", <<Col(TRUE), I("first", FALSE)>>, "decls", <<Decl("margin", <<Dim(3, "px", FALSE)>>)>>),
+             At("unknown", <<I("x", TRUE)>>, "decls", <<Decl("a", <<I("b", FALSE)>>)>>) }
 HostSel == <<Col(FALSE), I("host", FALSE)>>
 HD == <<Decl("color", <<I("pink", FALSE)>>), Decl("width", <<Dim(3, "rpx", FALSE)>>)>>
 Ord(n) == Rule(<<Dl(".", FALSE), I(n, FALSE)>>, Red)
-HostRules == { Rule(HostSel, HD), Rule(<<Col(FALSE), I("HOST", FALSE)>>, HD), Rule(<<Col(FALSE), Fn("host", <<Dl(".", FALSE), I("x", FALSE)>>, FALSE)>>, HD),
+(* (an empty :host block is a rule too) *)
+HostRules == { Rule(HostSel, HD), Rule(<<Col(FALSE), I("HOST", FALSE)>>, HD), Rule(HostSel, <<>>),
+               Rule(<<Col(FALSE), Fn("host", <<Dl(".", FALSE), I("x", FALSE)>>, FALSE)>>, HD),
                Rule(HostSel \o <<Dl(".", TRUE), I("a", FALSE)>>, HD), Rule(HostSel \o <<Com(FALSE), Dl(".", FALSE), I("a", FALSE)>>, HD),
                Rule(HostSel \o <<Col(FALSE), I("hover", FALSE)>>, HD) }
 Chains(rs) == { rs, <<At("Media", <<I("screen", TRUE)>>, "rules", rs)>>, <<At("media", <<Par(<<I("width", FALSE), Col(FALSE), Dim(3, "px", TRUE)>>, TRUE)>>, "rules", rs)>>,
                 <<At("media", <<I("screen", TRUE)>>, "rules", <<Ord("m")>> \o <<At("supports", <<Par(<<I("color", FALSE), Col(FALSE), I("red", TRUE)>>, TRUE)>>, "rules", rs)>> \o <<Ord("n")>>)>>,
                 <<At("supports", <<Par(<<I("a", FALSE), Col(FALSE), I("b", FALSE)>>, TRUE)>>, "rules",
                     <<At("media", <<I("print", TRUE)>>, "rules", <<At("media", <<Par(<<I("c", FALSE), Col(FALSE), Dim(3, "rpx", FALSE)>>, TRUE)>>, "rules", rs)>>)>>)>> }
-(* block at-rules that hold no rules (declarations, keyframes), standing before the :host rule in the same chain *)
-NoRules == { At("font-face", <<>>, "decls", <<Decl("font-family", <<Str("F", FALSE)>>)>>),
-             At("keyframes", <<I("k", TRUE)>>, "keyframes", <<Frame(<<I("from", FALSE)>>, <<Decl("left", <<Dim(3, "rpx", FALSE)>>)>>)>>),
-             At("page", <<Col(TRUE), I("first", FALSE)>>, "decls", <<Decl("margin", <<Dim(3, "px", FALSE)>>)>>),
-             At("unknown", <<I("x", TRUE)>>, "decls", <<Decl("a", <<I("b", FALSE)>>)>>) }
 FHost(lazy) == UNION { Chains(<<Ord("a"), h, Ord("b")>>) \cup Chains(<<h, h>>) \cup Chains(<<Ord("a"), h>>) : h \in HostRules }
           \cup UNION { Chains(<<n, h>>) \cup Chains(<<h, n, h, Ord("z")>>) : n \in NoRules, h \in {Rule(HostSel, HD)} }
 HostOpts == {[NoOpt EXCEPT !.host = hs, !.prefix = p, !.hostIs = hi] : hs \in BOOLEAN, p \in {"none", "p"}, hi \in {"none", "IS"}}
@@ -177,6 +179,11 @@ FImport(lazy) == { <<Import(f, p, l, s, m)>> : f \in {"string", "url"}, p \in Im
                                          m \in {<<>>, <<I("screen", TRUE)>>, <<I("screen", TRUE), I("and", TRUE), Par(<<I("min-width", FALSE), Col(FALSE), Dim(3, "rpx", TRUE)>>, TRUE)>>} }
            \cup { <<Ord("a"), Import("string", p, "none", <<>>, <<>>)>> : p \in ImportPaths }
            \cup { <<Import("STRING", p, l, <<>>, <<>>)>> : p \in {"a.wxss", "a%20b"}, l \in {"none", "x"} }      \* @IMPORT
+           (* an import after block at-rules only (no style rule before it) is "after other rules" too *)
+           \cup { <<n, Import("string", "a", "none", <<>>, <<>>)>> : n \in NoRules }
+           \cup { <<At("media", <<I("screen", TRUE)>>, "rules", <<Ord("m")>>), Import("url", "b", "x", <<>>, <<I("print", TRUE)>>)>>,
+                  <<At("media", <<I("screen", TRUE)>>, "rules", <<At("supports", <<Par(<<I("a", FALSE), Col(FALSE), I("b", FALSE)>>, TRUE)>>, "rules", <<Ord("m")>>),
+                                                                  Import("string", "c", "none", <<>>, <<>>)>>)>> }
            \cup { <<Import("string", "a", "none", <<>>, <<>>), Import("string", "b", "x", <<>>, <<I("print", TRUE)>>), Ord("z")>> }
 ImportOpts == {[NoOpt EXCEPT !.importSign = s, !.prefix = p] : s \in {"none", "IMP"}, p \in {"none", "p"}}
 
